@@ -24,6 +24,18 @@ HELPER = 'mininec.Mininec.nf_helper'
 
 def run(ctx, ck):
     m = ctx.model
+    # a cached value is not taken while what it is computed from is still being filled
+    ck.rule('R-CACHE.read-while-built', 'no cached_property is read by code from which its sources are still being filled in place')
+    from ..cache import cached_read_while_built
+    hz_, n_cp = cached_read_while_built(ctx)
+    for g_, rf_, ms_ in hz_:
+        ck.ob('R-CACHE.read-while-built', '%s|%s' % (g_.qual, rf_.qual), False, rf_.loc(),
+              '%s reads the cached %s while %s (reachable from it) still fills the collections it is computed from: '
+              'what is added later never shows up in the cached value' % (rf_.qual, g_.qual, ms_[0]))
+    ck.ob('R-CACHE.read-while-built', 'package', True, 'mininec', '%d cached properties examined' % n_cp)
+    ck.floor('cached properties', n_cp, 10)
+    if hz_:
+        return      # (the rules below would only report that they cannot follow the construction any more)
     ck.rule('R-HALF.coherent-product', 'a product never combines quantities of different halves')
     ck.rule('R-HALF.potential-half', 'psi is given the scale of the half whose geometry it integrates')
     ck.rule('R-HALF.complete-term', 'each vector-potential term = potential*sign*direction*ground-sign of one half')
